@@ -9,7 +9,7 @@ THEOREMS = ["ZwVerif.C07." + t for t in
              "signExtend_spec_1", "signExtend_spec_2", "signExtend_spec_4", "signExtend_spec_8", "unsigned_roundtrip",
              "form_sdata", "form_udata", "form_data", "sdata_decodes_signed", "udata_decodes_unsigned", "flags_are_booleans",
              "addresses_are_address_constants", "strings_are_strings", "references_are_dies", "enumerated_table",
-             "enumerated_attribute_domain", "const_value_rule", "const_value_signed_type", "const_value_unsigned_type",
+             "enumerated_attribute_domain", "signed_table", "signed_attribute_value", "const_value_rule", "const_value_signed_type", "const_value_unsigned_type",
              "const_value_boolean_type", "const_value_pointer_type", "type_walk_peels", "typedef_cv_are_peeled",
              "unknown_form_reported", "unknown_signedness_reported", "sig8_reported"]]
 
@@ -22,6 +22,11 @@ ERRS = {"Signedness of attribute not handled": "Signedness of attribute", "Unhan
 ENUMERATED = {0x13: "DW_LANG_", 0x20: "DW_INL_", 0x3e: "DW_ATE_", 0x32: "DW_ACCESS_", 0x17: "DW_VIS_", 0x4c: "DW_VIRTUALITY_",
               0x42: "DW_ID_", 0x36: "DW_CC_", 0x09: "DW_ORD_", 0x5e: "DW_DS_", 0x33: "DW_ADDR_", 0x65: "DW_END_", 0x8b: "DW_DEFAULTED_",
               0x3b: "line_number", 0x59: "line_number", 0x39: "column_number", 0x57: "column_number"}
+
+
+# attributes dwgrep reads as signed whatever the width (strides and scales can be negative): the same number whether stored
+# in a fixed-size form or as sdata (the same table as ZwVerif.C07.signedAttributes)
+SIGNED_ATTRS = {0x51: "byte_stride", 0x2e: "bit_stride", 0x5b: "binary_scale", 0x5c: "decimal_scale"}
 
 
 def spec_expected(a):
@@ -42,6 +47,8 @@ def spec_expected(a):
         return [("die", v["ref"])]
     if a["name"] in ENUMERATED and isinstance(v, dict) and "raw" in v and f != F["sdata"]:
         return [("c", ENUMERATED[a["name"]], v["raw"])]
+    if a["name"] in SIGNED_ATTRS and isinstance(v, dict) and "raw" in v:
+        return [("c", "dec", v["signed"])]
     return None
 
 
@@ -115,7 +122,7 @@ def run(ctx):
     try:
         for k in range(n):
             opts = {"max_units": 3, "extras": 0.6, "refused": 0.02, "rich_ops": 0.4, "loclists": 0.3 if k % 2 else 0.0,
-                    "dup_attrs": 0.1 if k % 4 == 2 else 0.0, "implicit_consts": 0.5}
+                    "dup_attrs": 0.1 if k % 4 == 2 else 0.0, "implicit_consts": 0.5, "const_blocks": 0.25}
             if k % 3 == 1:
                 opts["const_forms"] = ("data1", "data2", "data4", "data8")
             desc, path = fs.make(rng, **opts)
